@@ -348,7 +348,9 @@ def parse_assumptions(log):
 def coqchk(prop_dir, timeout=3000):
     """coqchk -o on <prop_dir>.Properties: (ok, detail, axioms listed)"""
     try:
-        p = subprocess.run(["coqchk", "-silent", "-o", "-Q", "theories", "JrV", f"JrV.{prop_dir}.Properties"],
+        pdir = os.path.join(COQ, "theories", prop_dir)
+        mods = [f"JrV.{prop_dir}.{f[:-2]}" for f in sorted(os.listdir(pdir)) if re.fullmatch(r"Properties\w*\.v", f)]
+        p = subprocess.run(["coqchk", "-silent", "-o", "-Q", "theories", "JrV"] + mods,
                            cwd=COQ, stdout=subprocess.PIPE, stderr=subprocess.STDOUT, text=True, timeout=timeout)
     except subprocess.TimeoutExpired:
         return False, "coqchk timed out", []
@@ -374,16 +376,20 @@ def check_property_file(run, prop_dir):
     """Compile <prop_dir>/{Model,Proofs,Properties,Pins}.v, audit, and register one obligation
     per theorem pinned in Pins.v.  Returns True when every obligation is discharged."""
     targets = coq_targets_for([prop_dir])
-    # force re-run of Properties.v so Print Assumptions output is captured
-    pv = os.path.join(COQ, "theories", prop_dir, "Properties.vo")
-    if os.path.exists(pv):
-        os.remove(pv)
+    # force re-run of Properties*.v so Print Assumptions output is captured
+    # (a property directory may hold several Properties<Part>.v / Pins<Part>.v files)
+    pdir = os.path.join(COQ, "theories", prop_dir)
+    prop_files = sorted(f for f in os.listdir(pdir) if re.fullmatch(r"Properties\w*\.v", f))
+    pin_files = sorted(f for f in os.listdir(pdir) if re.fullmatch(r"Pins\w*\.v", f))
+    for f in prop_files:
+        pv = os.path.join(pdir, f + "o")
+        if os.path.exists(pv):
+            os.remove(pv)
     ok, log = coq_make(targets)
-    pins = os.path.join(COQ, "theories", prop_dir, "Pins.v")
     names = []
-    if os.path.exists(pins):
-        names = re.findall(r"^Check\s+(\w+)\s*:", strip_comments(open(pins).read()), re.M)
-    props_src = strip_comments(open(os.path.join(COQ, "theories", prop_dir, "Properties.v")).read())
+    for f in pin_files:
+        names += re.findall(r"^Check\s+(\w+)\s*:", strip_comments(open(os.path.join(pdir, f)).read()), re.M)
+    props_src = "\n".join(strip_comments(open(os.path.join(pdir, f)).read()) for f in prop_files)
     thm_names = re.findall(r"^(?:Theorem|Lemma|Corollary)\s+(\w+)", props_src, re.M)
     missing_pin = [n for n in thm_names if n not in names]
     errs = ""
